@@ -106,7 +106,13 @@ def ob_contain(b0: int, b1: int, b2: int, b3: int, b4: int, b5: int) -> bool:
     if len(reports) > 1:
         return False
     cover('delivered')
-    if typ == 2 and state == S.ESTABLISHED:
+    if typ == 2 and len(body) < 4:
+        # shorter than the minimum UPDATE (23 octets): not an UPDATE body at all but a Message Header Error
+        # (RFC 4271 6.1, C01 / C18) - nothing is reported, the session is closed with the NOTIFICATION
+        cover('short-frame')
+        if reports or w.state != S.IDLE:
+            return False
+    elif typ == 2 and state == S.ESTABLISHED:
         # a malformed UPDATE body never tears down an Established session and is reported with its raw bytes
         if w.state != S.ESTABLISHED:
             return False
